@@ -3,13 +3,16 @@
    The index-array scatter of runner/jax/stratify.py (Model/InitPop.v stratify_values) is proved to
    compute the specification sv_spec (in-place replacement, value x split) for every compartment
    list, and get_calculate_initial_pop to be the replay of the recorded actions on (compartment,
-   value) pairs.  PARTIAL: what a population-split adjustment (population.py rebalance) does to the
-   values is executed and compared with the code and the oracle, not characterised by a theorem; the
-   theorems named _partial are the ones about the specification of a single step (DESIGN.md 6.6). *)
+   value) pairs; what a population-split adjustment (population.py rebalance) does to the values is
+   characterised index by index (C06_rebalance).  The theorems named _partial are the ones about the
+   specification of a single step.  C06_rebalance states the characterisation for any model under the condition
+   that a compartment sees one group total; C06_rebalance_built discharges that condition for every model the
+   build API produces (compartments of one name carry the same stratifications - an invariant of the build -
+   hence every compartment lies in exactly one group) (DESIGN.md 6.6). *)
 From Coq Require Import QArith Qcanon List String Bool.
 Import ListNotations.
 From S2 Require Import Base.Num Base.Arr Model.Expr Model.Struct Model.InitPop Model.Solvers Model.Run Model.Program
-     Proofs.NumQc Proofs.InitProofs Proofs.InitBridge Proofs.SolversProofs Props.Examples.
+     Proofs.NumQc Proofs.InitProofs Proofs.InitBridge Proofs.SolversProofs Proofs.RebalanceProofs Proofs.SameKeys Props.Examples.
 
 (* a stratified compartment is replaced by its strata, each holding the parent's value times the
    split of its stratum; unstratified compartments keep their value (to any depth: the product of
@@ -70,6 +73,54 @@ Theorem C06_total :
 Proof. exact initial_population_total. Qed.
 Print Assumptions C06_total.
 
+(* a population-split adjustment, index by index (pop is the population before it; the groups are the (name, other
+   strata) of the compartments that carry the stratification and match the filter; the members of a group are the
+   compartments with that name and those other strata; new_prop j is the new proportion of j's stratum):
+   (1) a compartment outside every group, or whose stratum the adjustment does not name, keeps its value;
+   (2) a member of a group g holds (total of g BEFORE the adjustment) x (the new proportion of its stratum) - totals
+       are never taken from half-adjusted values;
+   (3) hence a group whose members' new proportions add up to one keeps its total.
+   In (2) and (3) the compartment is required to see one total only: it lies in one group, or in groups of equal total. *)
+Theorem C06_rebalance :
+  forall (O : NumOps) (T : NumTheory O) (p : env O) (m : model) (pop : list (F O)) sname filt props,
+    (forall j, (j < List.length pop)%nat ->
+        (forall g, In g (rb_groups m sname filt) -> existsb (Nat.eqb j) (members m g) = false \/ new_prop O p m sname props j = None) ->
+        nth j (rebalance O p m pop sname filt props) (f0 O) = nth j pop (f0 O))
+    /\ (forall g j pr, (j < List.length pop)%nat ->
+        In g (rb_groups m sname filt) -> existsb (Nat.eqb j) (members m g) = true -> new_prop O p m sname props j = Some pr ->
+        (forall g', In g' (rb_groups m sname filt) -> existsb (Nat.eqb j) (members m g') = true ->
+                    group_total O m pop g' = group_total O m pop g) ->
+        nth j (rebalance O p m pop sname filt props) (f0 O) = fmul O (group_total O m pop g) pr)
+    /\ (forall g prs,
+        In g (rb_groups m sname filt) -> (forall j, In j (members m g) -> (j < List.length pop)%nat) ->
+        map (new_prop O p m sname props) (members m g) = map Some prs ->
+        (forall j g', In j (members m g) -> In g' (rb_groups m sname filt) -> existsb (Nat.eqb j) (members m g') = true ->
+                      group_total O m pop g' = group_total O m pop g) ->
+        fsum O prs = f1 O ->
+        fsum O (gather (f0 O) (rebalance O p m pop sname filt props) (members m g)) = group_total O m pop g).
+Proof.
+  intros O T p m pop sname filt props. split; [|split].
+  - intros j Hj H. apply (rebalance_frame O p m pop sname filt props j Hj H).
+  - intros g j pr Hj Hg Hm Hp Hu. apply (rebalance_member O p m pop sname filt props g j pr Hj Hg Hm Hp Hu).
+  - intros g prs Hg Hlt Hp Hu H1. apply (rebalance_group_total O T p m pop sname filt props g prs Hg Hlt Hp Hu H1).
+Qed.
+Print Assumptions C06_rebalance.
+
+(* ... and on every model built through the API the side condition holds: a member of a group holds the group's total
+   (before the adjustment) times the new proportion of its stratum, and a group whose members' new proportions add up
+   to one keeps its total *)
+Theorem C06_rebalance_built :
+  forall (O : NumOps) (T : NumTheory O) t0 t1 h comps inf ops m (p : env O) (pop : list (F O)) sname filt props,
+    build_ok t0 t1 h comps inf ops = Some m -> List.length pop = List.length (m_comps m) ->
+    (forall g j pr, In g (rb_groups m sname filt) -> existsb (Nat.eqb j) (members m g) = true ->
+                    new_prop O p m sname props j = Some pr ->
+                    nth j (rebalance O p m pop sname filt props) (f0 O) = fmul O (group_total O m pop g) pr)
+    /\ (forall g prs, In g (rb_groups m sname filt) ->
+                      map (new_prop O p m sname props) (members m g) = map Some prs -> fsum O prs = f1 O ->
+                      fsum O (gather (f0 O) (rebalance O p m pop sname filt props) (members m g)) = group_total O m pop g).
+Proof. intros O T. exact (rebalance_built O T). Qed.
+Print Assumptions C06_rebalance_built.
+
 (* a whole-population array supplied as a graph object is used verbatim *)
 Theorem C06_array_verbatim :
   forall (O : NumOps) (m : model) (p : env O) arr,
@@ -95,3 +146,13 @@ Proof.
   - reflexivity.
   - unfold splits_sum_to_one. apply Qc_is_canon. vm_compute. reflexivity.
 Qed.
+
+(* non-vacuity of C06_rebalance on the example model: three groups (S, I, R), each with its two age strata as members,
+   every compartment in exactly one group; rebalancing 900 people of S to 1/4 : 3/4 gives 225 and 675 *)
+Example C06_rebalance_nonvacuous :
+  let pop := initial_population QcOps ex_m ex_env in
+  let props := [("y"%string, EConst (1#4)); ("o"%string, EConst (3#4))] in
+  map (members ex_m) (rb_groups ex_m "age" []) = [[0; 1]; [2; 3]; [4; 5]]%nat
+  /\ map this (rebalance QcOps ex_env ex_m pop "age" [] props) = [225; 675; 25; 75; 0; 0]%Q
+  /\ map (fun j => option_map this (new_prop QcOps ex_env ex_m "age" props j)) [0; 1]%nat = [Some (1#4); Some (3#4)]%Q.
+Proof. vm_compute. repeat split. Qed.
